@@ -43,6 +43,11 @@ func BuildPrefix(name string, params refchain.Params, n uint32, custom func(h ui
 		if custom != nil {
 			custom(h, &s, p)
 		}
+		if s.Bits == 0 {
+			if par := p.Model.Nodes[prev]; par != nil {
+				s.Bits = refchain.RequiredBits(par, minichain.PowBits)
+			}
+		}
 		b := minichain.Build(s)
 		if r := e.Deliver(b.Bytes()); r != "ok" {
 			ev.HarnessError("prefix block %d: %s", h, r)
